@@ -68,9 +68,18 @@ func latencyFor(id, call int) int64 {
 }
 
 //go:norace
-func faultFor(id, call int) string {
+func faultFor(id, call int, arg string) string {
 	for _, f := range plan.Faults {
-		if f.ID == id && f.K == call {
+		if f.ID != id {
+			continue
+		}
+		if f.Arg != "" {
+			if f.Arg == arg {
+				return f.Kind
+			}
+			continue
+		}
+		if f.K == call {
 			return f.Kind
 		}
 	}
@@ -108,11 +117,12 @@ func stubBody(name string, transform bool) genql.Function {
 		if current != nil {
 			_, marker = current["<-"]
 		}
-		idx, call := beginCall(name, id, argText(x), marker)
+		arg := argText(x)
+		idx, call := beginCall(name, id, arg, marker)
 		if ns := latencyFor(id, call); ns > 0 {
 			zzsim.Sleep(time.Duration(ns))
 		}
-		switch kind := faultFor(id, call); kind {
+		switch kind := faultFor(id, call, arg); kind {
 		case "error":
 			endCall(idx, kind)
 			return nil, &injected{fmt.Sprintf("injected fault id=%d k=%d", id, call)}
